@@ -547,6 +547,20 @@ pub fn drain_events() -> Vec<KEv> {
     with_sim(|sim| std::mem::take(&mut sim.events))
 }
 
+/// Forget the rings whose descriptor a10 has closed (their number may be handed out again by the
+/// next `io_uring_setup`, which would replace the entry). Call before building an additional ring
+/// whose descriptor has to be told apart from the existing ones.
+pub fn purge_closed() {
+    with_sim(|sim| {
+        let dead: Vec<i32> = sim.rings.iter().filter(|(_, r)| r.closed).map(|(k, _)| *k).collect();
+        for fd in dead {
+            if let Some(r) = sim.rings.remove(&fd) {
+                r.destroy();
+            }
+        }
+    });
+}
+
 /// Forget all rings (their memfds were closed by a10 or are closed here).
 pub fn reset() {
     with_sim(|sim| {
